@@ -42,6 +42,9 @@ impl Interleaver {
         S: Data<Elem = T>,
     {
         assert_eq!(codeword.len() % self.columns, 0);
+        // The reshape below needs a contiguous array; strided or reversed views
+        // are copied into standard layout first.
+        let codeword = codeword.as_standard_layout();
         let a2 = codeword
             .view()
             .into_shape_with_order((self.columns, codeword.len() / self.columns))
